@@ -67,7 +67,7 @@ func (s c11Sys) tok() string {
 func (s c11Sys) String() string {
 	switch s.K {
 	case 'o':
-		return "open(O_WRONLY|O_CREAT|O_TRUNC) " + mboxCanon(s.P)
+		return "open(create/truncate) " + mboxCanon(s.P)
 	case 'w':
 		return fmt.Sprintf("write %d bytes to %s", s.N, mboxCanon(s.P))
 	case 'c':
@@ -314,7 +314,7 @@ func c11ParseTrace(trace, root, cwd string) c11Trace {
 				continue
 			}
 			wfd[rv] = p
-			if (fl["O_WRONLY"] || fl["O_RDWR"]) && fl["O_CREAT"] && fl["O_TRUNC"] && !fl["O_APPEND"] && !fl["O_DIRECTORY"] && !fl["O_TMPFILE"] {
+			if (fl["O_WRONLY"] || fl["O_RDWR"]) && fl["O_CREAT"] && (fl["O_TRUNC"] || fl["O_EXCL"]) && !fl["O_APPEND"] && !fl["O_DIRECTORY"] && !fl["O_TMPFILE"] {
 				emit(line, c11Sys{K: 'o', P: p})
 			} else {
 				other(line, "open("+flags+") "+p)
